@@ -11,14 +11,21 @@
 package main
 
 import (
+	"context"
 	"errors"
 	"fmt"
 	"os"
+	"path/filepath"
 	"reflect"
 	"sort"
+	"strconv"
 	"strings"
+	"sync"
 
 	"github.com/nginx/kubernetes-ingress/internal/configs"
+	"github.com/nginx/kubernetes-ingress/internal/configs/version1"
+	"github.com/nginx/kubernetes-ingress/internal/configs/version2"
+	"github.com/nginx/kubernetes-ingress/internal/nginx"
 	"github.com/nginx/kubernetes-ingress/internal/k8s"
 	"github.com/nginx/kubernetes-ingress/internal/k8s/appprotect"
 	"github.com/nginx/kubernetes-ingress/internal/k8s/secrets"
@@ -203,6 +210,18 @@ type PolObs struct {
 	Skel    map[string]any `json:"skel"` // the reference-bearing fields read off the real object
 }
 
+// EvObs: one notification delivered through the real informer handler and the real lbc.sync
+type EvObs struct {
+	Kind     string `json:"kind"`
+	Key      string `json:"key"`
+	Op       string `json:"op"`       // add | update | update-irrelevant | delete
+	Relevant bool   `json:"relevant"` // Service update: verdict of hasServiceChanges; true otherwise
+	Queued   int    `json:"queued"`   // tasks the handler put on the work queue
+	Regen    bool   `json:"regen"`    // the configuration file of the resource was written again
+	Stale    bool   `json:"stale"`    // after the event, regenerating the resource would still change its file
+	Err      string `json:"err,omitempty"`
+}
+
 type Obs struct {
 	Served     bool              `json:"served"`
 	Reject     string            `json:"reject,omitempty"`
@@ -215,6 +234,7 @@ type Obs struct {
 	Lookups    []Dep             `json:"lookups"`
 	Rev        []Rev             `json:"rev"`
 	Pols       []PolObs          `json:"pols"`
+	Events     []EvObs           `json:"events"`
 	Panic      string            `json:"panic,omitempty"`
 	Error      string            `json:"error,omitempty"`
 }
@@ -299,13 +319,8 @@ type fakeSecrets struct {
 }
 
 func (s *fakeSecrets) AddOrUpdateSecret(sec *api_v1.Secret) {
-	k := sec.Namespace + "/" + sec.Name
-	e := s.m[k]
-	if e == nil {
-		e = &secEntry{ok: true}
-		s.m[k] = e
-	}
-	e.ver++
+	ver, _ := strconv.Atoi(sec.ResourceVersion)
+	s.m[sec.Namespace+"/"+sec.Name] = &secEntry{ok: string(sec.Data["ok"]) != "0", ver: ver}
 }
 func (s *fakeSecrets) DeleteSecret(key string) { delete(s.m, key) }
 func (s *fakeSecrets) GetSecret(key string) *secrets.SecretReference {
@@ -910,6 +925,7 @@ type world struct {
 	pols  map[string]PolicySpec
 	dos   map[string]DosSpec
 	gen   int
+	mgr   *recMgr // event-level world only
 }
 
 func build(c *Case) *world {
@@ -1292,6 +1308,10 @@ func runCase(c *Case) (obs Obs) {
 		rv.Via = w.v.PoliciesFor(o.kind, ns, name)
 		obs.Rev = append(obs.Rev, rv)
 	}
+	obs.Events = []EvObs{}
+	if os.Getenv("VERIF_C15_NOEVENTS") == "" {
+		obs.Events = runEvents(c, res.Key, obs.Rev)
+	}
 	// sanity: the base is reproducible
 	if again := w.createEx(res.Key); !reflect.DeepEqual(base, again) {
 		obs.Error = "createExtendedResources is not reproducible on an unchanged cluster"
@@ -1446,6 +1466,467 @@ func skeleton(c *Case, res *k8s.VerifC15Resource) map[string]any {
 		return map[string]any{"kind": "merge", "master": skIngress(mkIngress(c.Ing, 0), res.ValidHosts, nil), "minions": mins}
 	}
 	return nil
+}
+
+// ---------------------------------------------------------------- event level: real handlers, real lbc.sync
+
+// recMgr is the nginx.Manager the real Configurator writes through; it keeps the last content per file.
+type recMgr struct {
+	*nginx.FakeManager
+	writes []string
+	files  map[string]string
+}
+
+func (m *recMgr) CreateConfig(name string, content []byte) bool {
+	m.writes = append(m.writes, "config:"+name)
+	m.files["config:"+name] = string(content)
+	return true
+}
+func (m *recMgr) DeleteConfig(name string) { m.writes = append(m.writes, "delete:"+name); delete(m.files, "config:"+name) }
+func (m *recMgr) CreateStreamConfig(name string, content []byte) bool {
+	m.writes = append(m.writes, "stream:"+name)
+	m.files["stream:"+name] = string(content)
+	return true
+}
+func (m *recMgr) DeleteStreamConfig(name string) {
+	m.writes = append(m.writes, "delete-stream:"+name)
+	delete(m.files, "stream:"+name)
+}
+
+var tmpl struct {
+	once sync.Once
+	v1   map[bool]*version1.TemplateExecutor
+	v2   map[bool]*version2.TemplateExecutor
+	err  error
+}
+
+func templates(plus bool) (*version1.TemplateExecutor, *version2.TemplateExecutor, error) {
+	tmpl.once.Do(func() {
+		dir := os.Getenv("VERIF_REPO_DIR")
+		if dir == "" {
+			dir = "/repo"
+		}
+		dir = filepath.Join(dir, "internal", "configs")
+		tmpl.v1, tmpl.v2 = map[bool]*version1.TemplateExecutor{}, map[bool]*version2.TemplateExecutor{}
+		for _, p := range []bool{false, true} {
+			pre := "nginx"
+			if p {
+				pre = "nginx-plus"
+			}
+			t1, err := version1.NewTemplateExecutor(filepath.Join(dir, "version1", pre+".tmpl"), filepath.Join(dir, "version1", pre+".ingress.tmpl"))
+			if err != nil {
+				tmpl.err = err
+				return
+			}
+			t2, err := version2.NewTemplateExecutor(filepath.Join(dir, "version2", pre+".virtualserver.tmpl"), filepath.Join(dir, "version2", pre+".transportserver.tmpl"))
+			if err != nil {
+				tmpl.err = err
+				return
+			}
+			tmpl.v1[p], tmpl.v2[p] = t1, t2
+		}
+	})
+	return tmpl.v1[plus], tmpl.v2[plus], tmpl.err
+}
+
+func mkSecretObj(key string, ok bool, gen int) *api_v1.Secret {
+	ns, name := splitKey(key)
+	v := "1"
+	if !ok {
+		v = "0"
+	}
+	return &api_v1.Secret{ObjectMeta: meta_v1.ObjectMeta{Namespace: ns, Name: name, ResourceVersion: fmt.Sprint(gen + 1)},
+		Type: api_v1.SecretTypeTLS, Data: map[string][]byte{"ok": []byte(v)}}
+}
+
+func mkApObj(kind, key string, ok bool, gen int) *unstructured.Unstructured {
+	ns, name := splitKey(key)
+	spec := map[string]interface{}{}
+	k := appprotect.PolicyGVK.Kind
+	if kind == "aplogconf" {
+		k = appprotect.LogConfGVK.Kind
+		if ok {
+			spec["content"] = map[string]interface{}{"format": "default", "gen": int64(gen)}
+			spec["filter"] = map[string]interface{}{"request_type": "all"}
+		} else {
+			spec["broken"] = int64(gen)
+		}
+	} else if ok {
+		spec["policy"] = map[string]interface{}{"name": name, "gen": int64(gen)}
+	} else {
+		spec["broken"] = int64(gen)
+	}
+	u := &unstructured.Unstructured{Object: map[string]interface{}{"apiVersion": "appprotect.f5.com/v1beta1", "kind": k, "spec": spec}}
+	u.SetNamespace(ns)
+	u.SetName(name)
+	u.SetResourceVersion(fmt.Sprint(gen))
+	return u
+}
+
+// buildFull: a controller with the real Configurator (over recMgr) and the real appprotect.Configuration;
+// the cluster is placed in the stores, App Protect / DoS objects and the resources are delivered through
+// the real handlers and synced.
+func buildFull(c *Case) (*world, error) {
+	t1, t2, err := templates(c.Env.Plus)
+	if err != nil {
+		return nil, err
+	}
+	w := &world{c: c, rec: &recorder{}, svc: map[string]SvcSpec{}, slice: map[string]bool{}, pols: map[string]PolicySpec{}, dos: map[string]DosSpec{}}
+	w.sec = &fakeSecrets{m: map[string]*secEntry{}, rec: w.rec}
+	w.mgr = &recMgr{FakeManager: nginx.NewFakeManager("/etc/nginx"), files: map[string]string{}}
+	ver := "nginx version: nginx/1.25.3"
+	if c.Env.Plus {
+		ver = "nginx version: nginx/1.25.3 (nginx-plus-r31)"
+	}
+	ctx := context.Background()
+	static := &configs.StaticConfigParams{NginxStatus: true, NginxStatusAllowCIDRs: []string{"127.0.0.1"}, NginxStatusPort: 8080,
+		NginxVersion: nginx.NewVersion(ver), MainAppProtectLoadModule: c.Env.AP, MainAppProtectDosLoadModule: c.Env.Dos, EnableOIDC: true,
+		EnableSnippets: true, EnableCertManager: true}
+	cnf := configs.NewConfigurator(configs.ConfiguratorParams{NginxManager: w.mgr, StaticCfgParams: static,
+		Config: configs.NewDefaultConfigParams(ctx, c.Env.Plus), MGMTCfgParams: configs.NewDefaultMGMTConfigParams(ctx),
+		TemplateExecutor: t1, TemplateExecutorV2: t2, IsPlus: c.Env.Plus, NginxVersion: nginx.NewVersion(ver)})
+	cnf.EnableReloads()
+	w.v = k8s.NewVerifC15(k8s.VerifC15Opts{Plus: c.Env.Plus, AppProtect: c.Env.AP, Dos: c.Env.Dos, SecretStore: w.sec, Configurator: cnf})
+	for _, s := range c.Cluster.Services {
+		w.svc[s.Key] = s
+		_ = w.v.Services.Add(mkService(s, 0))
+		if s.Slice {
+			w.addSlice(s.Key, 0)
+		}
+	}
+	for _, s := range c.Cluster.Secrets {
+		w.sec.m[s.Key] = &secEntry{ok: s.OK, ver: 1}
+		_ = w.v.Secrets.Add(mkSecretObj(s.Key, s.OK, 0))
+	}
+	for _, p := range c.Cluster.Policies {
+		w.pols[p.Ns+"/"+p.Name] = p
+		_ = w.v.Policies.Add(mkPolicy(p, 0))
+	}
+	deliver := func(kind string, obj interface{}) error {
+		_, err := w.v.Deliver(kind, "add", nil, obj)
+		return err
+	}
+	for _, a := range c.Cluster.Ap {
+		o := mkApObj(a.Kind, a.Key, a.OK, 0)
+		if a.Kind == "appolicy" {
+			_ = w.v.ApPol.Add(o)
+		} else {
+			_ = w.v.ApLog.Add(o)
+		}
+		if c.Env.AP {
+			if err := deliver(a.Kind, o); err != nil {
+				return nil, err
+			}
+		}
+	}
+	for _, d := range c.Cluster.Dos {
+		w.dos[d.Key] = d
+		o := mkDos(d, 0)
+		_ = w.v.DosProt.Add(o)
+		if c.Env.Dos {
+			if err := deliver("dos", o); err != nil {
+				return nil, err
+			}
+		}
+	}
+	w.v.Drain()
+	add := func(kind string, store cache.Store, obj interface{}) error {
+		_ = store.Add(obj)
+		return deliver(kind, obj)
+	}
+	switch c.Class {
+	case "vs":
+		if err := add("vs", w.v.VS, mkVS(c.VS)); err != nil {
+			return nil, err
+		}
+		for _, r := range c.VS.VSRs {
+			if err := add("vsr", w.v.VSR, mkVSR(r)); err != nil {
+				return nil, err
+			}
+		}
+	case "ts":
+		gc := &conf_v1.GlobalConfiguration{ObjectMeta: meta_v1.ObjectMeta{Namespace: "nginx-ingress", Name: "gc"}}
+		gc.Spec.Listeners = []conf_v1.Listener{{Name: "tcp-1", Port: 5353, Protocol: "TCP"}}
+		w.v.AddGlobalConfiguration(gc)
+		if err := add("ts", w.v.TS, mkTS(c.TS)); err != nil {
+			return nil, err
+		}
+	case "ing":
+		if c.Rival != nil {
+			if err := add("ingress", w.v.Ingress, mkIngress(c.Rival, 0)); err != nil {
+				return nil, err
+			}
+		}
+		if err := add("ingress", w.v.Ingress, mkIngress(c.Ing, 10)); err != nil {
+			return nil, err
+		}
+	case "merge":
+		if err := add("ingress", w.v.Ingress, mkIngress(c.Ing, 0)); err != nil {
+			return nil, err
+		}
+		for k := range c.Minions {
+			if err := add("ingress", w.v.Ingress, mkIngress(&c.Minions[k], 10+k)); err != nil {
+				return nil, err
+			}
+		}
+	}
+	w.v.Drain()
+	return w, nil
+}
+
+// storeEvent changes the store the way the informer does before it calls the handler; it returns the
+// handler arguments.
+func (w *world) storeEvent(kind, key, op string) (string, interface{}, interface{}, bool) {
+	w.gen++
+	g := w.gen
+	ns, name := splitKey(key)
+	switch kind {
+	case "secret":
+		e := w.sec.m[key]
+		switch op {
+		case "add":
+			cur := mkSecretObj(key, true, g)
+			_ = w.v.Secrets.Add(cur)
+			return "add", nil, cur, true
+		case "update":
+			old, cur := mkSecretObj(key, e.ok, 0), mkSecretObj(key, e.ok, g)
+			_ = w.v.Secrets.Update(cur)
+			return "update", old, cur, true
+		case "delete":
+			old := mkSecretObj(key, e.ok, 0)
+			_ = w.v.Secrets.Delete(old)
+			return "delete", old, nil, true
+		}
+	case "appolicy", "aplogconf":
+		st := w.v.ApPol
+		if kind == "aplogconf" {
+			st = w.v.ApLog
+		}
+		ok := true
+		for _, a := range w.c.Cluster.Ap {
+			if a.Kind == kind && a.Key == key {
+				ok = a.OK
+			}
+		}
+		switch op {
+		case "add":
+			cur := mkApObj(kind, key, true, g)
+			_ = st.Add(cur)
+			return "add", nil, cur, true
+		case "update":
+			old, cur := mkApObj(kind, key, ok, 0), mkApObj(kind, key, ok, g)
+			_ = st.Update(cur)
+			return "update", old, cur, true
+		case "delete":
+			old := mkApObj(kind, key, ok, 0)
+			_ = st.Delete(old)
+			return "delete", old, nil, true
+		}
+	case "service":
+		spec := w.svc[key]
+		switch op {
+		case "add":
+			cur := mkService(SvcSpec{Key: key}, g)
+			_ = w.v.Services.Add(cur)
+			w.addSlice(key, 0) // the slice arrives separately; only the Service notification is delivered here
+			return "add", nil, cur, true
+		case "update": // a port changes its number: hasServiceChanges notices it
+			old, cur := mkService(spec, 0), mkService(spec, 0)
+			cur.ResourceVersion = fmt.Sprint(g)
+			cur.Spec.Ports[1].Port = 8081
+			if spec.External {
+				cur.Spec.ExternalName = "moved." + cur.Spec.ExternalName
+			}
+			_ = w.v.Services.Update(cur)
+			return "update", old, cur, k8s.VerifC15ServiceChangeIsRelevant(old, cur)
+		case "update-irrelevant": // only metadata changes
+			old, cur := mkService(spec, 0), mkService(spec, 0)
+			cur.ResourceVersion = fmt.Sprint(g)
+			cur.Labels = map[string]string{"touched": fmt.Sprint(g)}
+			_ = w.v.Services.Update(cur)
+			return "update", old, cur, k8s.VerifC15ServiceChangeIsRelevant(old, cur)
+		case "delete":
+			old := mkService(spec, 0)
+			_ = w.v.Services.Delete(old)
+			return "delete", old, nil, true
+		}
+	case "endpoints":
+		old, oldPod := mkSlice(key, 0)
+		switch op {
+		case "add":
+			w.addSlice(key, 0)
+			return "add", nil, old, true
+		case "update":
+			cur, pod := mkSlice(key, 1+g%40)
+			_ = w.v.Pods.Delete(oldPod)
+			_ = w.v.Pods.Add(pod)
+			_ = w.v.Slices.Update(cur)
+			return "update", old, cur, true
+		case "delete":
+			w.delSlice(key)
+			return "delete", old, nil, true
+		}
+	case "policy":
+		spec := w.pols[key]
+		switch op {
+		case "add":
+			cur := mkPolicy(PolicySpec{Ns: ns, Name: name, Class: "nginx", Type: "access"}, g)
+			_ = w.v.Policies.Add(cur)
+			return "add", nil, cur, true
+		case "update":
+			old, cur := mkPolicy(spec, 0), mkPolicy(spec, g)
+			tweakPolicy(cur, g)
+			_ = w.v.Policies.Update(cur)
+			return "update", old, cur, !reflect.DeepEqual(old.Spec, cur.Spec)
+		case "delete":
+			old := mkPolicy(spec, 0)
+			_ = w.v.Policies.Delete(old)
+			return "delete", old, nil, true
+		}
+	case "dos":
+		spec := w.dos[key]
+		switch op {
+		case "add":
+			cur := mkDos(DosSpec{Key: key, Valid: true}, g)
+			_ = w.v.DosProt.Add(cur)
+			return "add", nil, cur, true
+		case "update":
+			old, cur := mkDos(spec, 0), mkDos(spec, g)
+			cur.Spec.ApDosMonitor = &v1beta1.ApDosMonitor{URI: fmt.Sprintf("mon%d.example.com", g)}
+			_ = w.v.DosProt.Update(cur)
+			return "update", old, cur, true
+		case "delete":
+			old := mkDos(spec, 0)
+			_ = w.v.DosProt.Delete(old)
+			return "delete", old, nil, true
+		}
+	}
+	return "", nil, nil, false
+}
+
+// tweakPolicy changes the spec of a policy without touching its references or its validity
+func tweakPolicy(p *conf_v1.Policy, g int) {
+	sp := &p.Spec
+	switch {
+	case sp.AccessControl != nil && sp.BasicAuth == nil:
+		sp.AccessControl.Allow = append(sp.AccessControl.Allow, fmt.Sprintf("10.%d.0.0/16", g%250))
+	case sp.JWTAuth != nil:
+		sp.JWTAuth.Realm = fmt.Sprintf("realm%d", g)
+	case sp.BasicAuth != nil:
+		sp.BasicAuth.Realm = fmt.Sprintf("realm%d", g)
+	case sp.IngressMTLS != nil:
+		d := g % 7
+		sp.IngressMTLS.VerifyDepth = &d
+	case sp.EgressMTLS != nil:
+		d := g % 7
+		sp.EgressMTLS.VerifyDepth = &d
+	case sp.OIDC != nil:
+		sp.OIDC.ClientID = fmt.Sprintf("client%d", g)
+	case sp.APIKey != nil:
+		sp.APIKey.SuppliedIn.Header = append(sp.APIKey.SuppliedIn.Header, fmt.Sprintf("X-Key-%d", g))
+	case sp.WAF != nil:
+		sp.WAF.Enable = !sp.WAF.Enable
+	}
+}
+
+func snapshot(m map[string]string) map[string]string {
+	out := make(map[string]string, len(m))
+	for k, v := range m {
+		out[k] = v
+	}
+	return out
+}
+
+func oneEvent(c *Case, resKey, kind, key, op string) (ev EvObs) {
+	ev = EvObs{Kind: kind, Key: key, Op: op, Relevant: true}
+	defer func() {
+		if p := recover(); p != nil {
+			ev.Err = "panic: " + fmt.Sprint(p)
+		}
+	}()
+	w, err := buildFull(c)
+	if err != nil {
+		ev.Err = err.Error()
+		return ev
+	}
+	found := false
+	for _, r := range w.v.Resources() {
+		if r.Key == resKey {
+			found = true
+		}
+	}
+	if !found {
+		ev.Err = "resource not served in the event-level controller"
+		return ev
+	}
+	primary := resKey[strings.LastIndex(resKey, "/")+1:]
+	w.mgr.writes = nil
+	hop, old, cur, relevant := w.storeEvent(kind, key, op)
+	if hop == "" {
+		ev.Err = "no such event"
+		return ev
+	}
+	ev.Relevant = relevant
+	n, err := w.v.Deliver(kind, hop, old, cur)
+	if err != nil {
+		ev.Err = err.Error()
+		return ev
+	}
+	ev.Queued = n
+	if hop == "update" {
+		ev.Relevant = n > 0 // the verdict of the handler's update filter, as observed
+		if kind == "service" && ev.Relevant != relevant {
+			ev.Err = "hasServiceChanges and the Service update handler disagree"
+		}
+	}
+	w.v.Drain()
+	for _, wr := range w.mgr.writes {
+		if (strings.HasPrefix(wr, "config:") || strings.HasPrefix(wr, "stream:")) && (strings.HasSuffix(wr, "_"+primary) || strings.HasSuffix(wr, "-"+primary)) {
+			ev.Regen = true
+		}
+	}
+	after := snapshot(w.mgr.files)
+	if err := w.v.Regenerate(resKey); err != nil {
+		ev.Err = "regenerate: " + err.Error()
+		return ev
+	}
+	ev.Stale = !reflect.DeepEqual(after, w.mgr.files)
+	return ev
+}
+
+// runEvents: for every object the resource depends on (and a few it does not), deliver the notifications
+// an informer would send for a deletion and an update (or, for a missing object, a creation).
+func runEvents(c *Case, resKey string, revs []Rev) []EvObs {
+	out := []EvObs{}
+	extra := 2
+	for _, r := range revs {
+		if !r.Dep {
+			if extra == 0 || !r.Exists {
+				continue
+			}
+			extra--
+		}
+		key := r.Ns + "/" + r.Name
+		var ops []string
+		if r.Exists {
+			ops = []string{"update", "delete"}
+			if r.Kind == "service" {
+				ops = append(ops, "update-irrelevant")
+			}
+		} else if r.Kind != "endpoints" {
+			ops = []string{"add"}
+		}
+		if (r.Kind == "appolicy" || r.Kind == "aplogconf") && !c.Env.AP {
+			continue // no informer for these kinds without -enable-app-protect
+		}
+		if r.Kind == "dos" && !c.Env.Dos {
+			continue
+		}
+		for _, op := range ops {
+			out = append(out, oneEvent(c, resKey, r.Kind, key, op))
+		}
+	}
+	return out
 }
 
 func invCase(id int) Case {
